@@ -95,14 +95,24 @@ pub fn ok_dynamic_independent() {
     let mut w = World::empty();
     w.insert_by_id(id1.clone(), A(v1));
     w.insert_by_id(id2.clone(), A(v2));
-    {
-        let mut g1 = w.try_fetch_mut_by_id::<A>(id1.clone()).unwrap();
-        let g2 = w.try_fetch_mut_by_id::<A>(id2.clone()).unwrap();
-        assert!(g1.0 == v1 && g2.0 == v2, "C09: a slot does not hold the value stored under its id");
-        g1.0 = v3;
-        witness!(true, "W: exclusive guards of two dynamic slots of one type coexist");
-        std::mem::forget(g2);
-        std::mem::forget(g1);
+    match (w.try_fetch_mut_by_id::<A>(id1.clone()), w.try_fetch_mut_by_id::<A>(id2.clone())) {
+        (Some(mut g1), Some(g2)) => {
+            assert!(g1.0 == v1 && g2.0 == v2, "C09: a slot does not hold the value stored under its id");
+            g1.0 = v3;
+            witness!(true, "W: exclusive guards of two dynamic slots of one type coexist");
+            drop(g2);
+            drop(g1);
+        }
+        _ => assert!(false, "C09: an exclusive fetch by id does not find the value stored under that id"),
+    }
+    // two shared guards of one slot next to a shared guard of the other
+    match (w.try_fetch_by_id::<A>(id1.clone()), w.try_fetch_by_id::<A>(id1.clone()), w.try_fetch_by_id::<A>(id2.clone())) {
+        (Some(a), Some(b), Some(c)) => {
+            assert!(a.0 == v3 && b.0 == v3 && c.0 == v2, "C09: a write through an exclusive by-id guard went to another slot (or was lost)");
+            witness!(true, "W: shared by-id guards coexist");
+            std::mem::forget((a, b, c));
+        }
+        _ => assert!(false, "C09: a shared fetch by id does not find the value stored under that id"),
     }
     std::mem::forget(w);
 }
@@ -115,8 +125,13 @@ pub fn ok_dynamic_replace_remove() {
     w.insert_by_id(id1.clone(), A(v1));
     w.insert_by_id(id2.clone(), A(v2));
     w.insert_by_id(id2.clone(), A(v3));
-    assert!(w.try_fetch_by_id::<A>(id1.clone()).unwrap().0 == v1, "C09: writing one slot changed another");
-    assert!(w.try_fetch_by_id::<A>(id2.clone()).unwrap().0 == v3, "C09: insert does not replace the value of its slot");
+    match (w.try_fetch_by_id::<A>(id1.clone()), w.try_fetch_by_id::<A>(id2.clone())) {
+        (Some(a), Some(b)) => {
+            assert!(a.0 == v1, "C09: writing one slot changed another");
+            assert!(b.0 == v3, "C09: insert does not replace the value of its slot");
+        }
+        _ => assert!(false, "C09: a shared fetch by id does not find the value stored under that id"),
+    }
     let out = w.remove_by_id::<A>(id1.clone());
     assert!(out == Some(A(v1)), "C09: remove does not return the value of its slot");
     assert!(!w.has_value_raw(id1.clone()) && w.has_value_raw(id2.clone()), "C09: remove emptied the wrong slot");
@@ -214,6 +229,65 @@ pub fn ok_history(steps: usize) {
                 if readers == 0 && !writer {
                     x = w.try_fetch_mut::<A>();
                     assert!(x.is_some(), "C08: an exclusive fetch of a present, unborrowed resource answered None");
+                }
+            }
+            3 => r1 = None,
+            4 => r2 = None,
+            _ => x = None,
+        }
+        let readers = r1.is_some() as u8 + r2.is_some() as u8;
+        let writer = x.is_some();
+        let cell = unsafe { w.try_fetch_internal(id.clone()) }.unwrap();
+        let free = cell.try_borrow_mut().is_ok();
+        let sharable = cell.try_borrow().is_ok();
+        if writer {
+            assert!(!free && !sharable, "C08: the cell is not exclusively borrowed although an exclusive guard is alive");
+        } else if readers > 0 {
+            assert!(!free && sharable, "C08: the cell is not in the shared state although only shared guards are alive");
+        } else {
+            assert!(free && sharable, "C08: a borrow outlives its guard (or a guard was dropped without releasing)");
+        }
+        k += 1;
+    }
+    witness!(x.is_some(), "W: a history ending with an exclusive guard");
+    witness!(r1.is_some() && r2.is_some(), "W: a history ending with two shared guards");
+    std::mem::forget(r1);
+    std::mem::forget(r2);
+    std::mem::forget(x);
+}
+
+/// the same for the by-id API on a slot with a solver-chosen dynamic id
+pub fn ok_history_by_id(steps: usize) {
+    let id = ResourceId::new_with_dynamic_id::<A>(any_u64());
+    let mut w = World::empty();
+    w.insert_by_id(id.clone(), A(any_u64()));
+    let w = &w;
+    let mut r1: Option<shred::Fetch<A>> = None;
+    let mut r2: Option<shred::Fetch<A>> = None;
+    let mut x: Option<shred::FetchMut<A>> = None;
+    let mut k = 0;
+    while k < steps {
+        let op = any_u8();
+        assume(op < 6);
+        let readers = r1.is_some() as u8 + r2.is_some() as u8;
+        let writer = x.is_some();
+        match op {
+            0 => {
+                if r1.is_none() && !writer {
+                    r1 = w.try_fetch_by_id::<A>(id.clone());
+                    assert!(r1.is_some(), "C08: a shared fetch by id of a present, not exclusively borrowed resource answered None");
+                }
+            }
+            1 => {
+                if r2.is_none() && !writer {
+                    r2 = w.try_fetch_by_id::<A>(id.clone());
+                    assert!(r2.is_some(), "C08: a shared fetch by id of a present, not exclusively borrowed resource answered None");
+                }
+            }
+            2 => {
+                if readers == 0 && !writer {
+                    x = w.try_fetch_mut_by_id::<A>(id.clone());
+                    assert!(x.is_some(), "C08: an exclusive fetch by id of a present, unborrowed resource answered None");
                 }
             }
             3 => r1 = None,
